@@ -9,6 +9,13 @@
   partial result and the counterexample that held on the unrepaired tree for the record
   (`gen/c19_switch.py known|fixed` swaps the two blocks); `setconst_guard_is_necessary` restates the
   counterexample about the generated table with that one guard taken out again.
+
+  F-C19c (`IcingaApplication()` in a sandboxed frame cleared `Application::m_Instance`: the constructor call runs
+  before the whitelist test, the dropped temporary's destructor reset the singleton) was repaired in /repo by ac7cac3.
+  The model keeps the mechanism (`Cfg.ctorEffect`); whether the destructor clears the singleton unconditionally is
+  GENERATED from application.cpp on every run (`SandboxGuards.appDtorClearsSingleton`, now false:
+  `application_dtor_keeps_singleton`), so `sandbox_noninterference_pinned` and `driver_model_trace_meets_spec` hold at
+  the generated tables as they are; `application_dtor_guard_is_necessary` restates the pre-fix counterexample.
 -/
 import IcingaProofs.C19.Lemmas
 import IcingaProofs.C19.Tables
@@ -21,14 +28,16 @@ open Icinga.Gen
 
 /-- **sandbox_noninterference.**  For every guard table in which each mutating node kind is guarded,
     with the call check in place, every native that is flagged side-effect free actually leaving the
-    protected state alone and `Reference#set` (which writes through a reference) not flagged so: for every program, every environment and every amount of fuel, evaluating
+    protected state alone, `Reference#set` (which writes through a reference) not flagged so, and no type whose
+    construction has a process-wide effect (`ctorEffect`: constructor calls run BEFORE the whitelist test,
+    expression.cpp:463-474 — F-C19c, repaired by ac7cac3): for every program, every environment and every amount of fuel, evaluating
     the program sandboxed ends — with a value or with an error — in an environment whose globals,
     constants, config objects, files and registries are exactly the initial ones. -/
 theorem sandbox_noninterference (cfg : Cfg)
-    (hg : ∀ k, mutating k = true → cfg.guard k = true) (hcc : cfg.callCheck = true)
+    (hg : ∀ k, mutating k = true → cfg.guard k = true) (hct : ∀ t, cfg.ctorEffect t = false) (hcc : cfg.callCheck = true)
     (hp : SafeNativesPure cfg) (hset : RefSetUnsafe cfg) (fuel : Nat) (e : Expr) (env : Env) :
     (eval cfg true fuel e env).2.prot = env.prot :=
-  (eval_pres (R := protEq) cfg hcc frameOk_protEq (invokeOk_protEq cfg hp hset) (Or.inl hg) fuel e).h env
+  (eval_pres (R := protEq) cfg hcc frameOk_protEq (invokeOk_protEq cfg hp hset) (Or.inl ⟨hg, hct⟩) fuel e).h env
 
 /-- **sandbox_only_safe_calls.**  With the call check in place, whatever the guard table says: every
     function that a sandboxed evaluation actually invokes (ghost call log) is a native flagged
@@ -120,10 +129,10 @@ theorem sandbox_hidden_fields_import (cfg : Cfg) (hf : cfg.fieldCheck = true) (h
     model can produce for a sandboxed program satisfies the specification predicate that the driver
     evaluates on the implementation's observations. -/
 theorem model_obs_meets_spec (cfg : Cfg)
-    (hg : ∀ k, mutating k = true → cfg.guard k = true) (hcc : cfg.callCheck = true)
+    (hg : ∀ k, mutating k = true → cfg.guard k = true) (hct : ∀ t, cfg.ctorEffect t = false) (hcc : cfg.callCheck = true)
     (hp : SafeNativesPure cfg) (hset : RefSetUnsafe cfg) (fuel : Nat) (e : Expr) (env : Env) :
     specStep (modelObs cfg .program false fuel e env) = none := by
-  have h := sandbox_noninterference cfg hg hcc hp hset fuel e env
+  have h := sandbox_noninterference cfg hg hct hcc hp hset fuel e env
   have hc := sandbox_only_safe_calls cfg hcc fuel e env
   simp [specStep, modelObs, observe, h]
   intro x hx hnx
@@ -139,6 +148,109 @@ theorem model_native_obs_meets_spec (cfg : Cfg) (hcc : cfg.callCheck = true) (na
   simp [specStep, modelObs, observe, h1, h2]
   intro x hx hnx
   exact absurd hx hnx
+
+/-! ## The event-stream call site (several subscribers' filters on one event) and whole traces -/
+
+/-- **push_event_noninterference** (eventqueue.cpp:250-275).  Handing one event to ANY list of subscribers' filters —
+    whatever each of them is, whether it yields a value or raises, in whatever order — leaves the protected state
+    exactly as it was: each filter runs in a frame of its own that is sandboxed, errors are swallowed, nothing is
+    rolled back and nothing needs to be. -/
+theorem push_event_noninterference (cfg : Cfg)
+    (hg : ∀ k, mutating k = true → cfg.guard k = true) (hct : ∀ t, cfg.ctorEffect t = false) (hcc : cfg.callCheck = true)
+    (hp : SafeNativesPure cfg) (hset : RefSetUnsafe cfg) (fuel : Nat) :
+    ∀ (filters : List Expr) (env : Env), (pushEvent cfg fuel filters env).2.prot = env.prot
+  | [], env => rfl
+  | f :: fs, env => by
+    simp only [pushEvent]
+    rw [push_event_noninterference cfg hg hct hcc hp hset fuel fs]
+    exact sandbox_noninterference cfg hg hct hcc hp hset fuel f { env with locals := [] }
+
+/-- **push_event_only_safe_calls.**  … and every function invoked on the way is a native flagged side-effect free. -/
+theorem push_event_only_safe_calls (cfg : Cfg) (hcc : cfg.callCheck = true) (fuel : Nat) :
+    ∀ (filters : List Expr) (env : Env),
+      ∀ c ∈ (pushEvent cfg fuel filters env).2.calls, c ∈ env.calls ∨ safeCallee cfg c = true
+  | [], env => fun c hc => Or.inl hc
+  | f :: fs, env => by
+    intro c hc
+    simp only [pushEvent] at hc
+    rcases push_event_only_safe_calls cfg hcc fuel fs _ c hc with h | h
+    · exact sandbox_only_safe_calls cfg hcc fuel f { env with locals := [] } c h
+    · exact Or.inr h
+
+/-- **push_event_delivers_only_on_value.**  A subscriber receives the event only if its own filter evaluated to a
+    value (a filter that is refused or raises never matches). -/
+theorem push_event_delivers_only_on_value (cfg : Cfg) (fuel : Nat) :
+    ∀ (filters : List Expr) (env : Env), ∀ p ∈ (pushEvent cfg fuel filters env).1, p.1 = true → p.2 = .ok
+  | [], _ => by simp [pushEvent]
+  | f :: fs, env => by
+    intro p hp hd
+    simp only [pushEvent, List.mem_cons] at hp
+    rcases hp with rfl | hp
+    · revert hd
+      cases h : (eval cfg true fuel f { env with locals := [] }).1 with
+      | ok v => intro _; simp [outcomeOf]
+      | error e => simp
+    · exact push_event_delivers_only_on_value cfg fuel fs _ p hp hd
+
+/-- **model_events_obs_meets_spec.**  The observation the model produces for one event and any list of filters
+    satisfies the specification predicate (the `E` lines of the harness). -/
+theorem model_events_obs_meets_spec (cfg : Cfg)
+    (hg : ∀ k, mutating k = true → cfg.guard k = true) (hct : ∀ t, cfg.ctorEffect t = false) (hcc : cfg.callCheck = true)
+    (hp : SafeNativesPure cfg) (hset : RefSetUnsafe cfg) (fuel : Nat) (filters : List Expr) (env : Env) :
+    specStep (modelEventsObs cfg fuel filters env) = none := by
+  have h := push_event_noninterference cfg hg hct hcc hp hset fuel filters env
+  have hc := push_event_only_safe_calls cfg hcc fuel filters env
+  have hd := push_event_delivers_only_on_value cfg fuel filters env
+  have h1 : ((pushEvent cfg fuel filters env).2.calls.any fun c => !(env.calls.contains c) && !safeCallee cfg c) = false := by
+    rw [List.any_eq_false]
+    intro c hcm
+    rcases hc c hcm with h' | h'
+    · simp [h']
+    · simp [h']
+  have h2 : ((pushEvent cfg fuel filters env).1.any fun p => p.1 && p.2 != .ok) = false := by
+    rw [List.any_eq_false]
+    intro p hpm
+    cases hp1 : p.1 with
+    | false => simp
+    | true => simp [hd p hpm hp1]
+  simp only [specStep, modelEventsObs, h, h1, h2]
+  simp
+
+/-- One operation of a run, as the harness issues them: a program (P lines), the call of one native that is not
+    flagged side-effect free (N lines of that kind), or one event handed to several filters (E lines) — each from an
+    arbitrary start environment. -/
+inductive Op
+  | program (e : Expr) (env : Env)
+  | unsafeNative (name : String) (args : List Expr) (env : Env)
+  | events (filters : List Expr) (env : Env)
+
+def Op.obs (cfg : Cfg) (fuel : Nat) : Op → Obs
+  | .program e env => modelObs cfg .program false fuel e env
+  | .unsafeNative name args env => modelObs cfg .native false (fuel + 2) (.call (.lit (.fn name)) args) env
+  | .events filters env => modelEventsObs cfg fuel filters env
+
+/-- **model_trace_meets_spec** — the whole-trace theorem.  For every configuration meeting the hypotheses of the
+    noninterference theorem, every fuel and EVERY finite sequence of operations (programs, calls of natives without
+    the flag, events with any number of filters; any start environments), the specification predicate accepts the
+    trace of the model's observations. -/
+theorem model_trace_meets_spec (cfg : Cfg)
+    (hg : ∀ k, mutating k = true → cfg.guard k = true) (hct : ∀ t, cfg.ctorEffect t = false) (hcc : cfg.callCheck = true)
+    (hp : SafeNativesPure cfg) (hset : RefSetUnsafe cfg) (fuel : Nat) :
+    ∀ ops : List Op, (∀ op ∈ ops, ∀ name args env, op = .unsafeNative name args env →
+        ∃ f, cfg.native name = some f ∧ f.safe = false) →
+      specTrace (ops.map (Op.obs cfg fuel)) = none
+  | [], _ => rfl
+  | op :: rest, hops => by
+    have ih := model_trace_meets_spec cfg hg hct hcc hp hset fuel rest
+      (fun o ho => hops o (List.mem_cons_of_mem _ ho))
+    have hstep : specStep (Op.obs cfg fuel op) = none := by
+      cases op with
+      | program e env => exact model_obs_meets_spec cfg hg hct hcc hp hset fuel e env
+      | unsafeNative name args env =>
+        obtain ⟨f, hn, hs⟩ := hops _ (List.mem_cons_self) name args env rfl
+        exact model_native_obs_meets_spec cfg hcc name f hn hs args fuel env
+      | events filters env => exact model_events_obs_meets_spec cfg hg hct hcc hp hset fuel filters env
+    simp only [List.map_cons, specTrace, hstep, ih]
 
 /-! ## The tables generated from the source on this run -/
 
@@ -211,7 +323,7 @@ theorem sandbox_noninterference_repaired (native : String → Option Native) (hi
     (hp : SafeNativesPure { genCfg native hidden with guard := repairedGuard })
     (fuel : Nat) (e : Expr) (env : Env) :
     (eval { genCfg native hidden with guard := repairedGuard } true fuel e env).2.prot = env.prot := by
-  apply sandbox_noninterference _ _ _ hp
+  apply sandbox_noninterference _ _ (fun _ => rfl) _ hp
   · intro k hk
     by_cases hks : k = "SetConstExpression"
     · simp [repairedGuard, hks]
@@ -227,6 +339,15 @@ theorem all_mutating_nodes_guarded : ∀ k, mutating k = true → genGuard k = t
   intro k hk
   exact h k (by simpa [mutating] using hk)
 
+/-- **application_dtor_keeps_singleton** (F-C19c, repaired by ac7cac3).  `Application::~Application` no longer
+    resets `Application::m_Instance` outside a condition (read from lib/base/application.cpp on this run), so no
+    type's constructor call — made before the whitelist test, expression.cpp:463-474 — has a process-wide effect
+    in the model configured by the generated tables. -/
+theorem application_dtor_keeps_singleton :
+    SandboxGuards.appDtorClearsSingleton = false ∧ ∀ native hidden t, (genCfg native hidden).ctorEffect t = false := by
+  have h : SandboxGuards.appDtorClearsSingleton = false := by decide
+  exact ⟨h, fun _ _ t => by simp [genCfg, appDerivedTypes, h]⟩
+
 /-- **sandbox_noninterference_pinned.**  Noninterference for the model configured by the generated
     tables as they are: every program, environment, fuel, and every table of natives whose flags are the
     registered ones and whose safe-flagged entries are pure. -/
@@ -234,13 +355,70 @@ theorem sandbox_noninterference_pinned (native : String → Option Native) (hidd
     (hfl : NativeFlagsFromTable native)
     (hp : SafeNativesPure (genCfg native hidden)) (fuel : Nat) (e : Expr) (env : Env) :
     (eval (genCfg native hidden) true fuel e env).2.prot = env.prot := by
-  refine sandbox_noninterference _ all_mutating_nodes_guarded call_and_field_checks_present.1 hp ?_ fuel e env
+  refine sandbox_noninterference (genCfg native hidden) all_mutating_nodes_guarded
+    (application_dtor_keeps_singleton.2 native hidden) call_and_field_checks_present.1 hp ?_ fuel e env
   intro f hf
   have h := hfl "Reference#set" f hf
   rw [reference_checks_present.2.2.1] at h
   cases hs : f.safe with
   | false => rfl
   | true => rw [hs] at h; cases h
+
+/-- **application_dtor_guard_is_necessary** (what F-C19c was, kept as a statement about the UNREPAIRED destructor).
+    Give `IcingaApplication` the constructor effect it had before ac7cac3 (`Application::~Application` clearing the
+    singleton unconditionally) and noninterference is false: `IcingaApplication()` evaluated sandboxed from the
+    empty environment clears the application singleton, because the constructor call is made before the
+    side-effect-free test.  So the model is sensitive to exactly the condition the repair added. -/
+theorem application_dtor_guard_is_necessary :
+    ¬ (∀ (fuel : Nat) (e : Expr) (env : Env),
+        (eval { genCfg (fun _ => none) (fun _ _ => false) with ctorEffect := fun t => t == "IcingaApplication" }
+            true fuel e env).2.prot = env.prot) := by
+  intro h
+  have := h 3 (.call (.lit (.type_ "IcingaApplication")) []) {}
+  revert this
+  decide
+
+/-- The natives the driver instantiates the model with carry the registered flags and are pure where flagged. -/
+theorem driver_natives_meet_hypotheses (hidden : String → String → Bool) :
+    NativeFlagsFromTable driverNative ∧ SafeNativesPure (genCfg driverNative hidden) := by
+  constructor
+  · intro n f hf
+    simp only [driverNative] at hf
+    cases hg : genSafe n with
+    | none => simp [hg] at hf
+    | some b => simp [hg] at hf; subst hf; rfl
+  · intro n f hf hs self args p
+    simp only [genCfg, driverNative] at hf
+    cases hg : genSafe n with
+    | none => simp [hg] at hf
+    | some b =>
+      simp [hg] at hf
+      subst hf
+      simp only at hs
+      simp [hs]
+
+/-- **driver_model_trace_meets_spec** — the whole-trace theorem at the model the driver actually runs
+    (`genCfg driverNative hidden`: guard table, checks, native flags and the destructor flag as GENERATED from the source
+    on this run), for every hidden-field table, fuel and sequence of operations.  No hypothesis is left that the
+    generated tables do not discharge. -/
+theorem driver_model_trace_meets_spec (hidden : String → String → Bool) (fuel : Nat) (ops : List Op)
+    (hops : ∀ op ∈ ops, ∀ name args env, op = .unsafeNative name args env → genSafe name = some false) :
+    specTrace (ops.map (Op.obs (genCfg driverNative hidden) fuel)) = none := by
+  obtain ⟨hfl, hp⟩ := driver_natives_meet_hypotheses hidden
+  refine model_trace_meets_spec (genCfg driverNative hidden)
+    all_mutating_nodes_guarded (application_dtor_keeps_singleton.2 driverNative hidden) call_and_field_checks_present.1 hp ?_ fuel ops ?_
+  · intro f hf
+    have h := hfl "Reference#set" f hf
+    rw [reference_checks_present.2.2.1] at h
+    cases hs : f.safe with
+    | false => rfl
+    | true => rw [hs] at h; cases h
+  · intro op hop name args env heq
+    have hs := hops op hop name args env heq
+    obtain ⟨f, hf⟩ : ∃ f, driverNative name = some f := by simp [driverNative, hs]
+    have hfs := hfl name f hf
+    rw [hs] at hfs
+    exact ⟨f, hf, (Option.some.inj hfs).symm⟩
 
 /-- **setconst_guard_is_necessary** (what F-C19a was, kept as a statement about the UNREPAIRED table).
     Take the one guard of `SetConstExpression` out of the generated table again and noninterference is
@@ -322,6 +500,27 @@ example : (eval exCfg false 9 (.setField (.index (.getScope .globals) (.lit (.st
 -- the call log is not vacuous: the safe native is logged, the non-safe one never appears
 example : (eval exCfg true 9 (.call (.lit (.fn "System#len")) []) exEnv).2.calls = [.native "System#len"] := by decide
 example : (eval exCfg true 9 (.call (.lit (.fn "System#log")) []) exEnv).1 = .error (.notSafe (.native "System#log")) := by decide
+
+-- the event-stream site: a filter that raises does not stop the next one from being evaluated — still sandboxed —, only
+-- filters that yield a true value deliver, and the whole-trace theorem's operations are not all refusals
+example : (pushEvent exCfg 9 [.throw_ (.lit (.str "x")), .setScoped .globals "g" .literal (.lit (.num 1)), .lit (.bool true), .var "g"] exEnv).1
+    = [(false, .err), (false, .sandbox), (true, .ok), (true, .ok)] := by decide
+example : (pushEvent exCfg 9 [.throw_ (.lit (.str "x")), .setScoped .globals "g" .literal (.lit (.num 1))] exEnv).2.prot = exEnv.prot := by decide
+example : (Op.obs exCfg 9 (.events [.lit (.bool true), .throw_ (.lit (.str "x"))] exEnv)).outcome = .err := by decide
+example : (Op.obs exCfg 9 (.program (.binop .add (.var "g") (.lit (.num 1))) exEnv)).outcome = .ok := by decide
+example : specTrace ([Op.program (.binop .add (.var "g") (.lit (.num 1))) exEnv, .unsafeNative "System#log" [] exEnv,
+                      .events [.lit (.bool true), .setConst "X" (.lit (.num 1))] exEnv].map (Op.obs exCfg 9)) = none := by decide
+-- the trace theorem's side condition is needed: a native that IS flagged safe may return a value, which the spec accepts
+-- only for natives carrying the flag (kind/flagged of the observation)
+example : specStep (modelObs exCfg .native false 9 (.call (.lit (.fn "System#len")) []) exEnv) = some .onlySafeCalls := by decide
+-- a constructor call with a process-wide effect is NOT stopped by the whitelist test (F-C19c) …
+example : (eval { exCfg with ctorEffect := fun t => t == "IcingaApplication" } true 9 (.call (.lit (.type_ "IcingaApplication")) []) exEnv).2.prot.app
+    = false := by decide
+-- … while an ordinary one computes a value and changes nothing
+example : (eval exCfg true 9 (.call (.lit (.type_ "String")) [.lit (.num 1)]) exEnv).1 = .ok (.str "1", .ok) ∧
+    (eval exCfg true 9 (.call (.lit (.type_ "String")) [.lit (.num 1)]) exEnv).2.prot = exEnv.prot := by decide
+example : specStep { kind := .events, flagged := false, outcome := .sandbox, changed := false, leak := false, matchedDespiteError := true }
+    = some .sandboxedAtSite := by decide
 
 -- the specification predicate rejects wrong traces (it is not vacuous)
 example : specTrace [{ kind := .program, flagged := false, outcome := .ok, changed := false, leak := false },
